@@ -30,7 +30,7 @@ PROPS["C04"] = {
     "assumptions": ["math/big is correct", "verifref.P = 2^255-19 and the RFC 9496 sqrt_ratio_m1 transcription (self-tested, cross-checked per case)",
                     "the documented limb headroom in field_u64.go / field_u32.go is the contract (inputs beyond it are out of scope)"],
     "units": [{
-        "pkg": "internal/field", "configs": ["default", "purego", "force32bit", "386"],
+        "pkg": "internal/field", "configs": ["default", "purego", "force32bit", "386", "386x64"],
         "tests": {
             "TestC04Raw": T(32000, 1000000),
             "TestC04Encode": T(24000, 500000),
